@@ -373,6 +373,24 @@ PROPS["C24"] = {
     "assumptions": ["empty intermediate nodes and the boolean 'object destroyed' result of remove are not judged; background tasks are settled after each operation (lazy start is C30's subject)"],
 }
 
+PROPS["C25"] = {
+    "level": "exploration",
+    "plan": zb_plan(("release", "asan")),
+    "rule": ("histories of 6..20 (10..40 thorough) rounds over 4 tree configurations (one manager, sibling managers, nested managers, "
+             "manager at the root): each round runs 1 operation, or 2..4 concurrently under 5 scheduler biases, out of at/remove of 3 "
+             "interface types (0, 1 and 2 properties) at paths inside, at and outside the managers, duplicate and absent-target "
+             "operations, adding/removing the ObjectManager itself, and property value changes; a raw client keeps one mirror per "
+             "manager (first listing + InterfacesAdded/Removed in wire order) that must equal a fresh GetManagedObjects listing after "
+             "every round (paths without interfaces ignored); in racing rounds an extra late-joining client's listing call races "
+             "with the operations (reply position in the wire order decides which signals it applies); properties carried by "
+             "InterfacesAdded and by listings must equal the interfaces' current values; distinct = distinct (history, schedule)"),
+    "gates": {"quick": {"evaluations": 1200, "distinct": 1000, "mirror_comparisons": 8000, "late_joiner_comparisons": 2000, "manager_signals_seen": 8000,
+                        "added_signal_property_sets_checked": 5000, "class:config-nested": 150, "class:config-siblings": 150},
+              "thorough": {"evaluations": 50000, "distinct": 40000}},
+    "assumptions": ["for nested managers both readings of the outer manager's scope (whole subtree / up to the inner manager) are accepted for the listing-vs-registered-set comparison; the mirror-vs-listing comparison has no such latitude",
+                    "a mirror's stored property values are not compared with later listings (property changes travel by PropertiesChanged, C28); properties are judged where they are reported"],
+}
+
 PROPS["C30"] = {
     "level": "exploration",
     "plan": zb_plan(("release",)),
